@@ -18,6 +18,8 @@ Import ListNotations.
 From FGV Require Import Base.Util Base.Sym Model.Permute Model.MapMatrix Spec.PermuteSpec Spec.PermuteCheck
      Proofs.PermsFacts Proofs.GenFacts Proofs.PermuteProofs Proofs.PermuteCheckProofs Proofs.PermuteExact
      Proofs.MapMatrixProofs.
+From FGV Require Import Base.Bond Base.NX Model.Match Model.MapSubgraph2 Spec.Embedding Spec.MinMappingSpec
+     Proofs.MinMappingProofs Proofs.MapSubgraph2Proofs.
 Open Scope string_scope.
 Open Scope Z_scope.
 
@@ -139,6 +141,84 @@ Theorem C08_matrix_checker : forall mp psyms ssyms syms m,
   matrix_table m syms = matrix_spec_table mp psyms ssyms syms.
 Proof. exact matrix_table_spec. Qed.
 
+(** * MappingMatrix.min_mapping_symbol and map_subgraph2 (extension)
+
+    The rows of the matrix are numbered by enumerating a Python set of the registered symbols, so the
+    numbering depends on the string hashes (PYTHONHASHSEED).  [ord] is that numbering; the theorems hold
+    for every numbering ([set_order ord syms]: a duplicate-free listing of the registered symbols).
+    [anchor_count m ps ss (p, s)] is the entry m_cnt[p, s] of the code written without matrices:
+    (number of structure symbols, with multiplicity, that p can be mapped to) x (number of pattern
+    symbols, with multiplicity, that can be mapped to s) if p can be mapped to s, else 0. *)
+
+(* ValueError iff the pattern list is longer; else KeyError iff a queried symbol is not registered; else
+   None iff every count is 0, and a reported pair is a valid cell of the matrix whose count is positive
+   and least among the positive counts *)
+Theorem C08_min_mapping_spec : forall ord m ps ss,
+  set_order ord (mm_syms m) -> mm_wf m ->
+  min_mapping_spec m ps ss (min_mapping_symbol ord m ps ss).
+Proof. exact min_mapping_symbol_spec. Qed.
+
+(* which minimal pair is reported may depend on the numbering (C08_min_mapping_order_dependent);
+   its count, None and the exceptions do not *)
+Theorem C08_min_mapping_order_independent_count : forall ord1 ord2 m ps ss,
+  set_order ord1 (mm_syms m) -> set_order ord2 (mm_syms m) -> mm_wf m ->
+  match min_mapping_symbol ord1 m ps ss, min_mapping_symbol ord2 m ps ss with
+  | MMSOk (Some c1), MMSOk (Some c2) => anchor_count m ps ss c1 = anchor_count m ps ss c2
+  | MMSOk None, MMSOk None | MMSValueError, MMSValueError | MMSKeyError, MMSKeyError => True
+  | _, _ => False
+  end.
+Proof. exact min_mapping_order_independent. Qed.
+
+(* for the matrix built from the queried lists themselves (what map_subgraph2 does): never a KeyError; a
+   reported pair occurs in the lists and is accepted by the mapper; None only if the mapper accepts no pair *)
+Theorem C08_min_mapping_constructed : forall ord mp ps ss m,
+  mm_init mp ps ss = Some m -> set_order ord (ps ++ ss) ->
+  match min_mapping_symbol ord m ps ss with
+  | MMSValueError => (List.length ss < List.length ps)%nat
+  | MMSKeyError => False
+  | MMSOk None => forall p s, In p ps -> In s ss -> permute mp [p] [s] = []
+  | MMSOk (Some c) => In (fst c) ps /\ In (snd c) ss /\ permute mp [fst c] [snd c] <> [] /\ minimal_pair m ps ss c
+  end.
+Proof. exact min_mapping_init. Qed.
+
+Theorem C08_min_mapping_checker_sound : forall mp psyms ssyms ps ss r,
+  minmap_okb mp psyms ssyms ps ss r = true ->
+  exists m, mm_init mp psyms ssyms = Some m /\ min_mapping_spec m ps ss r.
+Proof. exact minmap_okb_sound. Qed.
+
+(* every mapping map_subgraph2 reports is an embedding of the whole pattern into the host (covers: a
+   bijection between the pattern's nodes and distinct host nodes; Embedding: symbols accepted, every
+   pattern bond on an equally labelled host bond), whatever the numbering and whatever matrix is passed *)
+Theorem C08_map_subgraph2_sound : forall w ic ord G P matrix l,
+  wfb G = true -> wfb P = true ->
+  map_subgraph2 ord G P (mk_mapper w ic []) matrix = MS2Ok l ->
+  forall b pairs, In (b, pairs) l ->
+    b = true /\ exists a pa, In pa (nodes P) /\ covers P pairs /\ Embedding w ic G a P pa (pair_fun pairs).
+Proof. exact map_subgraph2_sound. Qed.
+
+(* the whole result with the tie-break left open: ValueError for > 1 component, KeyError for a node without
+   symbol, ValueError for a pattern with more nodes than the host, AssertionError iff the mapper accepts no
+   symbol pair, otherwise the successful anchored matches (pattern nodes outer, host nodes inner loop) of
+   SOME minimal anchor-symbol pair *)
+Theorem C08_map_subgraph2_spec : forall ord G P mp,
+  (forall gl sl, labels_of G = Some gl -> labels_of P = Some sl -> set_order ord (sl ++ gl)) ->
+  map_subgraph2_spec G P mp (map_subgraph2 ord G P mp None).
+Proof. exact map_subgraph2_spec_holds. Qed.
+
+Theorem C08_map_subgraph2_no_fuel : forall ord G P mp matrix,
+  wfb P = true -> map_subgraph2 ord G P mp matrix <> MS2Fuel.
+Proof. exact map_subgraph2_no_fuel. Qed.
+
+Theorem C08_map_subgraph2_checker_sound : forall G P mp r,
+  map_subgraph2_okb G P mp r = true -> map_subgraph2_spec G P mp r.
+Proof. exact map_subgraph2_okb_sound. Qed.
+
+Theorem C08_map_subgraph2_embedding_checker_sound : forall w ic G P l,
+  all_embeddingsb w ic G P (MS2Ok l) = true ->
+  forall b pairs, In (b, pairs) l ->
+    b = true /\ exists a pa, covers P pairs /\ Embedding w ic G a P pa (pair_fun pairs).
+Proof. exact all_embeddingsb_sound. Qed.
+
 (** * non-vacuity *)
 
 (* R is the wildcard, H may map to nothing: R takes O, C takes C, H finds no partner *)
@@ -179,6 +259,51 @@ Proof.
   apply (C08_wildcard_last_by_constructor "R" false ["R"; "H"]).
 Qed.
 
+(* ORDER DEPENDENCE (observed in the implementation under PYTHONHASHSEED=0 vs 1): pattern C-O in host
+   C-O-C-O.  (C,C) and (O,O) tie with count 2; the numbering decides which one is reported, and map_subgraph2
+   then returns different sets of embeddings: host atoms {0,1},{2,3} when anchored on O, {0,1},{2,1} when
+   anchored on C (there are three embeddings in all). *)
+Definition ex_coco : graph :=
+  [(0, (na_sym "C", [(1, Scalar 2)])); (1, (na_sym "O", [(0, Scalar 2); (2, Scalar 2)]));
+   (2, (na_sym "C", [(1, Scalar 2); (3, Scalar 2)])); (3, (na_sym "O", [(2, Scalar 2)]))].
+Definition ex_co : graph := [(0, (na_sym "C", [(1, Scalar 2)])); (1, (na_sym "O", [(0, Scalar 2)]))].
+
+Example C08_min_mapping_order_dependent :
+  let mp := mk_mapper (Some "R") true [] in
+  exists m, mm_init mp ["C"; "O"] ["C"; "O"; "C"; "O"] = Some m
+  /\ set_order ["O"; "C"] (mm_syms m) /\ set_order ["C"; "O"] (mm_syms m) /\ mm_wf m
+  /\ min_mapping_symbol ["O"; "C"] m ["C"; "O"] ["C"; "O"; "C"; "O"] = MMSOk (Some ("O", "O"))
+  /\ min_mapping_symbol ["C"; "O"] m ["C"; "O"] ["C"; "O"; "C"; "O"] = MMSOk (Some ("C", "C"))
+  /\ anchor_count m ["C"; "O"] ["C"; "O"; "C"; "O"] ("O", "O") = 2
+  /\ anchor_count m ["C"; "O"] ["C"; "O"; "C"; "O"] ("C", "C") = 2.
+Proof.
+  eexists. split; [apply mm_init_ok|].
+  assert (Ho : forall a b : string, a <> b -> NoDup [a; b]).
+  { intros a b Hab. constructor; [intros [H|[]]; congruence|]. constructor; [intros []|constructor]. }
+  split; [split; [apply Ho; discriminate | intros x; simpl; tauto]|].
+  split; [split; [apply Ho; discriminate | intros x; simpl; tauto]|].
+  split; [apply (mm_init_wf _ _ _ _ (mm_init_ok _ _ _))|].
+  repeat split; vm_compute; reflexivity.
+Qed.
+
+Example C08_map_subgraph2_order_dependent :
+  let mp := mk_mapper (Some "R") true [] in
+  map_subgraph2 ["O"; "C"] ex_coco ex_co mp None = MS2Ok [(true, [(1, 1); (0, 0)]); (true, [(3, 1); (2, 0)])]
+  /\ map_subgraph2 ["C"; "O"] ex_coco ex_co mp None = MS2Ok [(true, [(0, 0); (1, 1)]); (true, [(2, 0); (1, 1)])]
+  /\ wfb ex_coco = true /\ wfb ex_co = true
+  /\ map_subgraph2_okb ex_coco ex_co mp (MS2Ok [(true, [(1, 1); (0, 0)]); (true, [(3, 1); (2, 0)])]) = true
+  /\ map_subgraph2_okb ex_coco ex_co mp (MS2Ok [(true, [(0, 0); (1, 1)]); (true, [(2, 0); (1, 1)])]) = true
+  /\ all_embeddingsb (Some "R") true ex_coco ex_co (MS2Ok [(true, [(0, 0); (1, 1)]); (true, [(2, 0); (1, 1)])]) = true.
+Proof. repeat split; vm_compute; reflexivity. Qed.
+
+(* a matrix over more symbols than the query: the reported pair can name a pattern symbol (the wildcard R)
+   that does not occur in the queried pattern list *)
+Example C08_min_mapping_foreign_symbol :
+  let mp := mk_mapper (Some "R") true [] in
+  option_map (fun m => min_mapping_symbol ["R"; "C"] m ["C"] ["C"]) (mm_init mp ["C"; "R"] ["C"])
+  = Some (MMSOk (Some ("R", "C"))).
+Proof. vm_compute. reflexivity. Qed.
+
 Print Assumptions C08_sound.
 Print Assumptions C08_complete.
 Print Assumptions C08_nodup.
@@ -198,3 +323,12 @@ Print Assumptions C08_matrix.
 Print Assumptions C08_checker_sound.
 Print Assumptions C08_checker_sound_partial.
 Print Assumptions C08_matrix_checker.
+Print Assumptions C08_min_mapping_spec.
+Print Assumptions C08_min_mapping_order_independent_count.
+Print Assumptions C08_min_mapping_constructed.
+Print Assumptions C08_min_mapping_checker_sound.
+Print Assumptions C08_map_subgraph2_sound.
+Print Assumptions C08_map_subgraph2_spec.
+Print Assumptions C08_map_subgraph2_no_fuel.
+Print Assumptions C08_map_subgraph2_checker_sound.
+Print Assumptions C08_map_subgraph2_embedding_checker_sound.
